@@ -130,7 +130,12 @@ const Type* TypedefNameTypeResolver::resolve(const Type* ty)
             auto tydefDecl = tydefNameTy->declaration();
             if (!tydefDecl)
                 return semaModel_->compilation()->canonicalErrorType();
-            return resolve(tydefDecl->synonymizedType());
+            // A typedef of incomplete code may (indirectly) name itself.
+            if (!tydefDeclsUnderResolution_.insert(tydefDecl).second)
+                return semaModel_->compilation()->canonicalErrorType();
+            auto resolvedTy = resolve(tydefDecl->synonymizedType());
+            tydefDeclsUnderResolution_.erase(tydefDecl);
+            return resolvedTy;
         }
 
         case TypeKind::Qualified: {
